@@ -342,7 +342,11 @@ def verify_one(h, info, tier_workdir, extra_unwind=None):
             r["failed"] = c["failed"]
             r["unwind_failed"] = c["unwind_failed"][:5]
             r["unsupported_reachable"] = c["unsupported_reachable"][:5]
-            if c["failed"]:
+            if c["errors"] and not c["failed"]:
+                # e.g. the SAT solver ran out of memory: nothing it reported can be trusted
+                r["verdict"] = "error"
+                r["detail"] = c["errors"][:3]
+            elif c["failed"]:
                 r["verdict"] = "failed"
             elif c["unwind_failed"]:
                 r["verdict"] = "unwind_too_small"
